@@ -167,6 +167,13 @@ func c19Run(c *fw.Ctx) fw.Outcome {
 				if i < 224 || i > 235 {
 					return fw.Bad(key, desc, "stl output differs between two clocks at byte %d, outside the creation/revision date fields (224..235)", i)
 				}
+				// each of the two dates on its own: a date the metadata supplies does not follow the clock
+				if i <= 229 && s.Metadata != nil && s.Metadata.STLCreationDate != nil {
+					return fw.Bad(key, desc, "stl output: the creation date field (byte %d) follows the clock although the metadata supplies the creation date ({%s})", i, desc)
+				}
+				if i >= 230 && s.Metadata != nil && s.Metadata.STLRevisionDate != nil {
+					return fw.Bad(key, desc, "stl output: the revision date field (byte %d) follows the clock although the metadata supplies the revision date ({%s})", i, desc)
+				}
 				diffDates = true
 			}
 		}
